@@ -1,0 +1,19 @@
+//go:build verif
+
+// Contracts checked by /verif/govc (comment-only file; adds no code).
+
+package set
+
+//@ func (Set).Add
+//@ props C09
+//@ requires s != nil
+//@ modifies mapobj(s)
+//@ ensures has(s, elem) && forall(k, string, k != elem ==> has(s, k) == old(has(s, k)))
+
+//@ func (Set).Contains
+//@ props C09
+//@ ensures result == has(s, elem)
+
+//@ func New
+//@ props C09
+//@ ensures result != nil && fresh(result) && forall(k, string, !has(result, k))
